@@ -807,6 +807,88 @@ impl<'a, 'b> B<'a, 'b> {
         }
     }
 
+    /// `d` nested blocks (begin/end, try/finally, repeat/until, if-then-begin) with a statement inside.
+    fn nested_blocks(&mut self, d: u32) {
+        self.nl();
+        if d == 0 {
+            self.simple_stmt();
+            return;
+        }
+        match self.t.below(4) {
+            0 => {
+                let b = self.kw("begin");
+                self.depth += 1;
+                self.blocks += 1;
+                let first = self.p.toks.len() as u32;
+                self.nested_blocks(d - 1);
+                self.mark(first, b, 0);
+                self.op(";");
+                self.blocks -= 1;
+                self.depth -= 1;
+                self.nl();
+                let e = self.kw("end");
+                self.mark(e, b, 1);
+            }
+            1 => {
+                let k = self.kw("if");
+                self.named("Flag");
+                self.kw("then");
+                let b = self.kw("begin");
+                self.mark(b, k, 2);
+                self.depth += 1;
+                self.blocks += 1;
+                let first = self.p.toks.len() as u32;
+                self.nested_blocks(d - 1);
+                self.mark(first, k, 0);
+                self.op(";");
+                self.blocks -= 1;
+                self.depth -= 1;
+                self.nl();
+                let e = self.kw("end");
+                self.mark(e, k, 1);
+            }
+            2 => {
+                let k = self.kw("try");
+                self.depth += 1;
+                self.blocks += 1;
+                let first = self.p.toks.len() as u32;
+                self.nested_blocks(d - 1);
+                self.mark(first, k, 0);
+                self.op(";");
+                self.blocks -= 1;
+                self.depth -= 1;
+                self.nl();
+                let f = self.kw("finally");
+                self.mark(f, k, 1);
+                self.depth += 1;
+                self.nl();
+                let c = self.p.toks.len() as u32;
+                self.simple_stmt();
+                self.mark(c, f, 0);
+                self.op(";");
+                self.depth -= 1;
+                self.nl();
+                let e = self.kw("end");
+                self.mark(e, k, 1);
+            }
+            _ => {
+                let k = self.kw("repeat");
+                self.depth += 1;
+                self.blocks += 1;
+                let first = self.p.toks.len() as u32;
+                self.nested_blocks(d - 1);
+                self.mark(first, k, 0);
+                self.op(";");
+                self.blocks -= 1;
+                self.depth -= 1;
+                self.nl();
+                let u = self.kw("until");
+                self.mark(u, k, 1);
+                self.named("Done");
+            }
+        }
+    }
+
     fn stmt_if_chain(&mut self, else_tok: u32) {
         self.kw("if");
         self.header += 1;
@@ -932,11 +1014,32 @@ impl<'a, 'b> B<'a, 'b> {
             if kwd == "var" && self.t.chance(1, 6) {
                 self.op("=");
                 self.number();
+            } else if kwd == "var" && self.t.chance(1, 10) {
+                self.kw("absolute");
+                self.named("Other");
+                self.tag("absolute");
             }
             self.op(";");
         }
         self.depth -= 1;
         self.tag("var-section");
+    }
+
+    fn resourcestring_section(&mut self) {
+        self.nl();
+        let k = self.kw("resourcestring");
+        self.depth += 1;
+        let n = 1 + self.t.below(2);
+        for _ in 0..n {
+            self.nl();
+            let first = self.fresh("S");
+            self.mark(first, k, 0);
+            self.op("=");
+            self.string();
+            self.op(";");
+        }
+        self.depth -= 1;
+        self.tag("resourcestring");
     }
 
     fn const_section(&mut self) {
@@ -997,7 +1100,30 @@ impl<'a, 'b> B<'a, 'b> {
                 self.kw(d);
                 self.op(";");
             }
+            if self.t.chance(1, 12) {
+                self.kw("deprecated");
+                self.push("'use something else'", Kind::Text);
+                self.op(";");
+                self.tag("deprecated-msg");
+            }
         }
+    }
+
+    fn attribute(&mut self) {
+        self.tag("attribute");
+        self.op("[");
+        let a = *self.t.pick(&["Weak", "Attr", "Test", "Column"]);
+        self.named(a);
+        if a != "Weak" && self.t.chance(1, 2) {
+            self.op("(");
+            self.number();
+            if self.t.chance(1, 2) {
+                self.op(",");
+                self.string();
+            }
+            self.op(")");
+        }
+        self.op("]");
     }
 
     fn class_members(&mut self, opener_line_tok: u32) {
@@ -1031,6 +1157,10 @@ impl<'a, 'b> B<'a, 'b> {
             let m = self.t.below(4);
             for _ in 0..m {
                 self.nl();
+                if self.t.chance(1, 10) {
+                    self.attribute();
+                    self.nl();
+                }
                 let first = self.p.toks.len() as u32;
                 match self.t.below(4) {
                     0 | 1 => {
@@ -1044,15 +1174,39 @@ impl<'a, 'b> B<'a, 'b> {
                         self.tag("property");
                         self.kw("property");
                         self.fresh("P");
+                        let array_prop = self.t.chance(1, 4);
+                        if array_prop {
+                            self.op("[");
+                            self.named("Index");
+                            self.op(":");
+                            self.named("Integer");
+                            self.op("]");
+                        }
                         self.op(":");
                         self.type_name();
+                        if !array_prop && self.t.chance(1, 6) {
+                            self.kw("index");
+                            self.number();
+                        }
                         self.kw("read");
                         self.fresh("F");
                         if self.t.chance(1, 2) {
                             self.kw("write");
                             self.fresh("F");
                         }
+                        if !array_prop && self.t.chance(1, 6) {
+                            self.kw("stored");
+                            self.named("False");
+                        }
+                        if !array_prop && self.t.chance(1, 6) {
+                            self.kw("default");
+                            self.number();
+                        }
                         self.op(";");
+                        if array_prop && self.t.chance(1, 2) {
+                            self.kw("default");
+                            self.op(";");
+                        }
                     }
                 }
                 self.mark(first, v, 0);
@@ -1071,7 +1225,12 @@ impl<'a, 'b> B<'a, 'b> {
             self.nl();
             let first = self.fresh("T");
             self.mark(first, k, 0);
-            let which = self.t.weighted(&[4, 4, 3, 2, 2, 2]);
+            if self.t.chance(1, 12) {
+                // attribute on the type declaration (own line)
+                let last = self.p.toks.len() - 1;
+                let _ = last;
+            }
+            let which = self.t.weighted(&[4, 4, 3, 2, 2, 2, 1, 1, 1]);
             if self.opts.generics && matches!(which, 1 | 2 | 5) && self.t.chance(1, 5) {
                 self.tag("generic-type");
                 self.op("<");
@@ -1079,6 +1238,14 @@ impl<'a, 'b> B<'a, 'b> {
                 if self.t.chance(1, 3) {
                     self.op(":");
                     self.kw("class");
+                    if self.t.chance(1, 2) {
+                        self.op(",");
+                        self.kw("constructor");
+                    }
+                }
+                if self.t.chance(1, 4) {
+                    self.op(";");
+                    self.named("K");
                 }
                 self.op(">");
             }
@@ -1122,6 +1289,37 @@ impl<'a, 'b> B<'a, 'b> {
                         self.op(";");
                     }
                     self.depth -= 1;
+                    if self.t.chance(1, 5) {
+                        self.tag("variant-record");
+                        self.nl();
+                        self.kw("case");
+                        if self.t.chance(1, 2) {
+                            self.named("Tag");
+                            self.op(":");
+                        }
+                        self.named("Integer");
+                        self.kw("of");
+                        self.depth += 1;
+                        let arms = 1 + self.t.below(2);
+                        for a in 0..arms {
+                            self.nl();
+                            self.push(&a.to_string(), Kind::Number);
+                            self.op(":");
+                            self.op("(");
+                            self.fresh("F");
+                            self.op(":");
+                            self.type_name();
+                            if self.t.chance(1, 2) {
+                                self.op(";");
+                                self.fresh("F");
+                                self.op(":");
+                                self.type_name();
+                            }
+                            self.op(")");
+                            self.op(";");
+                        }
+                        self.depth -= 1;
+                    }
                     self.nl();
                     let e = self.kw("end");
                     self.mark(e, first, 1);
@@ -1164,8 +1362,55 @@ impl<'a, 'b> B<'a, 'b> {
                     self.op(";");
                     self.tag("proc-type");
                 }
+                6 => {
+                    self.kw("class");
+                    self.kw("of");
+                    self.named("TFoo");
+                    self.op(";");
+                    self.tag("class-of");
+                }
+                7 => {
+                    // forward class declaration
+                    self.kw("class");
+                    self.op(";");
+                    self.tag("forward-class");
+                }
+                8 => {
+                    self.kw("class");
+                    self.kw("helper");
+                    self.kw("for");
+                    self.named("TFoo");
+                    self.depth += 1;
+                    let m = 1 + self.t.below(2);
+                    for _ in 0..m {
+                        self.nl();
+                        let before = self.p.toks.len() as u32;
+                        self.method_header(false);
+                        self.mark(before, first, 0);
+                    }
+                    self.depth -= 1;
+                    self.nl();
+                    let e = self.kw("end");
+                    self.mark(e, first, 1);
+                    self.op(";");
+                    self.tag("class-helper");
+                }
                 _ => {
                     self.kw("interface");
+                    if self.t.chance(1, 2) {
+                        self.op("(");
+                        self.named("IUnknown");
+                        self.op(")");
+                    }
+                    if self.t.chance(1, 2) {
+                        self.depth += 1;
+                        self.nl();
+                        self.op("[");
+                        self.push("'{12345678-1234-1234-1234-123456789ABC}'", Kind::Text);
+                        self.op("]");
+                        self.depth -= 1;
+                        self.tag("guid");
+                    }
                     self.depth += 1;
                     let m = self.t.below(3);
                     for _ in 0..m {
@@ -1251,6 +1496,13 @@ impl<'a, 'b> B<'a, 'b> {
         if self.t.chance(1, 6) {
             self.const_section();
         }
+        if self.t.chance(1, 12) {
+            self.nl();
+            self.kw("label");
+            self.named("L1");
+            self.op(";");
+            self.tag("label");
+        }
         if self.fuel > 20 && self.t.chance(1, 10) {
             // nested routine
             self.depth += 1;
@@ -1292,7 +1544,9 @@ impl<'a, 'b> B<'a, 'b> {
 
     fn decl_one(&mut self, interface: bool) {
         {
-            match self.t.below(if interface { 4 } else { 6 }) {
+            match self.t.below(if interface { 5 } else { 7 }) {
+                4 if interface => self.resourcestring_section(),
+                6 => self.resourcestring_section(),
                 0 => {
                     let tv = self.t.chance(1, 8);
                     self.var_section(if tv { "threadvar" } else { "var" })
@@ -1338,10 +1592,92 @@ impl<'a, 'b> B<'a, 'b> {
     }
 
     pub fn file(&mut self) {
-        match self.t.weighted(&[6, 3, 4, 2]) {
+        match self.t.weighted(&[6, 3, 4, 2, 1, 1]) {
+            4 => {
+                self.tag("file:package");
+                self.nl();
+                self.kw("package");
+                self.fresh("Pkg");
+                self.op(";");
+                if self.opts.directives && self.t.chance(1, 2) {
+                    self.compiler_directive();
+                }
+                if self.t.chance(2, 3) {
+                    self.nl();
+                    self.kw("requires");
+                    self.named("rtl");
+                    if self.t.chance(1, 2) {
+                        self.op(",");
+                        self.named("vcl");
+                    }
+                    self.op(";");
+                }
+                if self.t.chance(2, 3) {
+                    self.nl();
+                    self.kw("contains");
+                    let n = 1 + self.t.below(3);
+                    for i in 0..n {
+                        if i > 0 {
+                            self.op(",");
+                        }
+                        self.fresh("Unit");
+                        if self.t.chance(1, 2) {
+                            self.kw("in");
+                            self.push("'Unit.pas'", Kind::Text);
+                        }
+                    }
+                    self.op(";");
+                }
+                self.nl();
+                self.kw("end");
+                self.op(".");
+            }
+            5 => {
+                self.tag("file:library");
+                self.nl();
+                self.kw("library");
+                self.fresh("Lib");
+                self.op(";");
+                if self.t.chance(1, 2) {
+                    self.uses();
+                }
+                self.decls(false);
+                self.nl();
+                self.kw("exports");
+                let n = 1 + self.t.below(3);
+                for i in 0..n {
+                    if i > 0 {
+                        self.op(",");
+                    }
+                    self.fresh("R");
+                    match self.t.below(3) {
+                        0 => {
+                            self.kw("name");
+                            self.push("'Exported'", Kind::Text);
+                        }
+                        1 => {
+                            self.kw("index");
+                            self.number();
+                        }
+                        _ => {}
+                    }
+                }
+                self.op(";");
+                self.nl();
+                let b = self.kw("begin");
+                self.stmt_list(b, "end");
+                self.op(".");
+            }
             0 => {
                 // statement fragment
                 self.tag("file:stmts");
+                if self.t.chance(1, 12) {
+                    // a deep nest of blocks (more than 8 levels) around a few statements
+                    let d = 6 + self.t.below(10);
+                    self.tag("deep-nest");
+                    self.nested_blocks(d);
+                    self.op(";");
+                }
                 let n = 1 + self.t.below(5);
                 for _ in 0..n {
                     self.nl();
